@@ -21,7 +21,7 @@ def obs(thunk, conv=None):
 
 def cb(v):
     """Canonical form of a returned bitstring: (class name, bits, pos or None)."""
-    return (type(v).__name__, v.bin, getattr(v, '_pos', None) if type(v).__name__ in STREAMS else None)
+    return (type(v).__name__, v.bin, getattr(v, 'pos', None) if type(v).__name__ in STREAMS else None)
 
 
 def exc_is(got, *names):
